@@ -85,12 +85,14 @@ func (r *Reader) Close() error {
 }
 
 func incrementBytes(in []byte) []byte {
-	rv := make([]byte, len(in))
-	copy(rv, in)
-	for i := len(rv) - 1; i >= 0; i-- {
-		rv[i] = rv[i] + 1
-		if rv[i] != 0 {
-			return rv // didn't overflow, so stop
+	for i := len(in) - 1; i >= 0; i-- {
+		if in[i] != 0xff {
+			// smallest key greater than every key with prefix in:
+			// drop the trailing 0xff bytes and bump the last one left
+			rv := make([]byte, i+1)
+			copy(rv, in)
+			rv[i]++
+			return rv
 		}
 	}
 	return nil // overflowed
